@@ -14,7 +14,8 @@ from . import parsegen as P
 HEARTS = ["♥", "❤", "💕", "💖"]
 
 
-def scripted(rng, with_read=None):
+def scripted(rng, with_read=None, mode=None):
+    mode = mode or rng.choice(["mixed", "mixed", "same-heart"])
     n_dec = rng.choice([3, 5, 8, 12])
     decisions = [rng.choice([0, 0, 5]) for _ in range(n_dec)]          # 0 -> left branch (0 < 3), 5 -> right (5 < 3 false)
     prog = []
@@ -26,8 +27,12 @@ def scripted(rng, with_read=None):
     for i in range(m):
         if i == read_at:
             prog += ["흑", "항.", "흑..."]                                 # read one character, print it, back to stack 3
-        left = rng.choice(HEARTS[:3] + ["♡", "♡", ""])
-        right = rng.choice(HEARTS[:3] + ["♡", "", "", ""])
+        if mode == "same-heart":
+            # every command carries the same label and returns through the white heart: loops made of white-heart jumps only
+            left, right = "♥", rng.choice(["♡", "♡", ""])
+        else:
+            left = rng.choice(HEARTS[:3] + ["♡", "♡", ""])
+            right = rng.choice(HEARTS[:3] + ["♡", "", "", ""])
         # 항... : pop one value and push it back to stack 3 (net nothing); area pops one decision and compares with 3
         prog.append("항..." + left + "?" + right)
         prog.append("형" + "." * (65 + i))                                # push the letter
@@ -38,9 +43,8 @@ def scripted(rng, with_read=None):
 def branch(rng):
     p = rng.choice([0, 1, 2, 3, 4, 5, 7, 9, 11, 15])
     q = rng.choice([1, 1, 2, 3, 4])
-    neg = rng.random() < 0.3
+    neg = rng.random() < 0.4
     nan = rng.random() < 0.1
-    c = rng.choice([3, 4, 5, 6])
     op = rng.choice(["?", "?", "!"])
     prog = []
     if nan:
@@ -49,7 +53,15 @@ def branch(rng):
         prog += ["형" + "." * p if p else "형", "형" + "." * q, "흡.......", "하앗..."]   # p, q -> 1/q (copy to stack 7) -> p/q
         if neg:
             prog.append("흣.......")                                     # negate in place (sum to stack 7)
-    # 흑 with c dots: copy the value to stack c and select it; the area pops the copy and compares it with the count c
-    prog.append("흑" + "." * c + rng.choice(["❤", "❤", ""]) + op + rng.choice(["♥", "♥", ""]))    # left heart: taken, right heart: not taken
+    lh, rh = rng.choice(["❤", "❤", ""]), rng.choice(["♥", "♥", ""])     # left heart: branch taken, right heart: not taken
+    if op == "?" and rng.random() < 0.6:
+        # 형 with c dots pushes the count c itself; `?(_, ?(L, R))`: the first ? pops that count (never below itself), the
+        # second pops the value and compares it with c — any count, including 0
+        c = rng.choice([0, 0, 1, 2, 3, 5])
+        prog.append("형" + "." * c + "?" + lh + "?" + rh)
+    else:
+        # 흑 with c dots: copy the value to stack c and select it; the area pops the copy and compares it with the count c
+        c = rng.choice([3, 4, 5, 6])
+        prog.append("흑" + "." * c + lh + op + rh)
     prog += ["형" + "." * 66, "항."]
     return " ".join(prog)
